@@ -37,7 +37,7 @@ Section Main.
     assert (Hr0 : reads (add_xsi_e None (eobj n None o)) pevs) by (rewrite add_xsi_e_none; exact Hr).
     assert (Hxq : forall q, xsi_val None = Some q -> ok (PQName q) = true /\ qname_ok q = true)
       by (intros q Hq; discriminate Hq).
-    destruct (all_parse cfg c u ok ign (Parser.replay_n k c u) (Some cl) conv_law Hnodef n cl o None None Hw Hfit Hxq pevs Hr0)
+    destruct (all_parse cfg c u ok ign (Parser.replay_n k c u) (Some cl) false conv_law Hnodef n cl o None None Hw Hfit Hxq pevs Hr0)
       as [attrs [ns [inner [-> [Hxt [Hxn Hrun]]]]]].
     destruct (wfr_inv u cl Hw) as [m [Hm _]].
     assert (Ho : exists fs, o = VObj cl fs).
